@@ -423,6 +423,20 @@ def _find_domain_floordiv(op, lhs, rhs):
     raise NotImplementedError("TODO")
 
 
+@find_domain.register(ops.PowOp)
+def _find_domain_pow(op, lhs, rhs):
+    if (
+        isinstance(lhs, ArrayType)
+        and isinstance(rhs, ArrayType)
+        and isinstance(lhs.dtype, int)
+        and isinstance(rhs.dtype, int)
+    ):
+        shape = broadcast_shape(lhs.shape, rhs.shape)
+        size = max((lhs.size - 1) ** (rhs.size - 1), 1) + 1
+        return Array[size, shape]
+    return _find_domain_pointwise_binary_generic(op, lhs, rhs)
+
+
 @find_domain.register(ops.ModOp)
 def _find_domain_mod(op, lhs, rhs):
     if isinstance(lhs, ArrayType) and isinstance(rhs, ArrayType):
